@@ -27,6 +27,8 @@ def units(tier):
     us += func_units("pyrtcm.rtcmhelpers.calc_crc24q", tier)
     us += func_units("pyrtcm.rtcmmessage.RTCMMessage.__init__", tier)
     us += func_units("pyrtcm.rtcmmessage.RTCMMessage.identity", tier)
+    from pyvc import clientrun
+    us.append(clientrun.unit("two_reads", clientrun.lemma_two_reads))
     return us
 
 
